@@ -94,6 +94,7 @@ func verif_C14_trip() {
 	srv.EnableDSN, srv.EnableREQUIRETLS, srv.EnableSMTPUTF8, srv.EnableRRVS = true, true, utf8srv, true
 	var line []byte
 	var cerr error
+	authNonASCII := false
 	var mo MailOptions
 	var ro RcptOptions
 	if isMail {
@@ -114,10 +115,14 @@ func verif_C14_trip() {
 			assume(r <= 0x7e)
 			mo.EnvelopeID = "e" + string(r) + "="
 		case 2:
-			// AUTH: a mailbox whose local part carries the scalar; 7-bit ASCII domain of xtext
-			assume(r <= 0x7e && verifIsAtext(byte(r)))
+			// AUTH: a mailbox whose local part carries the scalar: an atext
+			// character (the 7-bit domain of xtext), or ANY non-ASCII scalar
+			// - which the client may refuse locally (xtext cannot carry it),
+			// but must not send in a form the server reads as something else
+			assume((r <= 0x7e && verifIsAtext(byte(r))) || r >= 0x80)
 			a := "u" + string(r) + "@h"
 			mo.Auth = &a
+			authNonASCII = r >= 0x80
 		}
 		if nondetBool() && mo.Auth == nil {
 			e := ""
@@ -164,6 +169,12 @@ func verif_C14_trip() {
 		c, vc := verifClient("250 2.0.0 ok\r\n", ext)
 		cerr = c.Rcpt("r@v", &ro)
 		line = vc.out
+	}
+	if authNonASCII && cerr != nil {
+		// refused locally with nothing sent: not accepted, nothing to survive
+		verifReach("C14.trip-auth-non-ascii-refused-locally")
+		verifAssert(len(line) == 0, "C14.refused-envelope-writes-nothing")
+		return
 	}
 	verifAssert(cerr == nil, "C14.client-accepts-envelope")
 	if cerr != nil {
